@@ -1,6 +1,7 @@
 //! Reference model of the savefile format. No dependency on savefile.
 pub mod emit;
 pub mod families;
+pub mod grammar;
 pub mod hist;
 pub mod schema;
 pub mod ty;
